@@ -50,8 +50,14 @@ from core import common as C
 from core import simcase as S
 from core import impl as I
 
+import numpy as np
+
 from acnportal.acnsim.simulator import Simulator
 from acnportal.acnsim.network.charging_network import ChargingNetwork
+from acnportal.acnsim.network.current import Current
+from acnportal.acnsim.events import EventQueue, PluginEvent, RecomputeEvent
+from acnportal.acnsim.models.battery import Battery, Linear2StageBattery
+from acnportal.acnsim.models.ev import EV
 
 ID = "C09"
 LEAN_MODULES = ["AcnProofs.C09"]
@@ -463,6 +469,88 @@ def _exhaustive():
     return out
 
 
+# ids that need care somewhere between `_to_dict`, `json.dumps`, `json.loads` and `_from_dict`: JSON escapes (quote,
+# backslash, control characters, DEL, non-ASCII, characters beyond U+FFFF), the empty string, blanks, very long ids,
+# ids that look like numbers / JSON literals / JSON fragments / the model's own tags, separators of the harness
+EXOTIC_IDS = ['a"b', 'back\\slash', 'tab\there', 'nl\nx', '\x00nul', 'del\x7f', '\x1f', 'caf\u00e9', '\u65e5\u672c', '\U0001F600 car',
+              '', ' lead', 'trail ', '123', '1e5', '-0', '0.5', '007', 'NaN', 'Infinity', 'null', 'true', 'None', 's:tag',
+              'i:5', 'f:1.0', 'm:[]', '-', 'b:true', '{"k": 1}', '[1, 2]', '\\u0041', '\\', '"', "'", '/', '</script>',
+              '\u2028', '\ufeffbom', '\u03a9' * 3, 'L' * 3000, '\u00ff', 'a,b', 'a: b', '140234567890123', '\\"', '\\n',
+              '\ud7ff\ue000', '\U0010ffff', '\x7f\x80\x9f\xa0']
+_ALPHA = ['"', '\\', '/', '\n', '\r', '\t', '\x08', '\x0c', '\x00', '\x1f', ' ', '~', '\x7f', '\x80', '\u00e9', '\u07ff', '\u0800',
+          '\ud7ff', '\ue000', '\uffff', '\U00010000', '\U0001F600', '\U0010ffff', 'a', 'Z', '0', '9', '-', '.', 'e', 'u', '{', '}',
+          '[', ']', ',', ':']
+
+
+def _probe(rng):
+    """strings and ints for the text-layer tie of this case (rendered by the modelled `json.dumps`, compared with
+    CPython's byte for byte, parsed back)"""
+    def rs():
+        return "".join(rng.choice(_ALPHA) for _ in range(rng.choice([0, 1, 2, 5, 12])))
+    big = rng.choice([0, 1, 9, 10, 99, 100, 2 ** 31, 2 ** 63, 10 ** 18 + 7, rng.randrange(10 ** 30)])
+    return {"strs": [rs(), rs(), rng.choice(EXOTIC_IDS)], "ints": [big, -big, rng.randint(-1000, 1000)]}
+
+
+def _gen_exotic(rng):
+    """what reaches the serialiser from outside: ids that need escaping or look like something else (stations,
+    sessions, the constraint name), numpy integer / float32 scalars as EV fields and period, inf / nan where the
+    constructors accept them, session ids that ARE registry ids; several stations occupied at the crash."""
+    for _ in range(6):
+        scn = _gen_scn(rng)
+        if len(scn["stations"]) >= 2 and len({s_["station"] for s_ in scn["sessions"]}) >= 2:
+            break
+    _tie_heavy(rng, _diversify(rng, scn))
+    names = rng.sample(EXOTIC_IDS, len(scn["stations"]) + len(scn["sessions"]) + 1)
+    _rename_stations(scn, names[:len(scn["stations"])])
+    for s_, nm in zip(scn["sessions"], names[len(scn["stations"]):]):
+        s_["session"] = nm
+    scn["exotic"] = True
+    if scn.get("constraint") is None and rng.random() < 0.5:
+        scn["constraint"] = {"limit": 1000.0}
+    if scn.get("constraint"):
+        scn["constraint"]["name"] = names[-1]
+        if rng.random() < 0.25:
+            scn["constraint"]["limit"] = "inf"
+    for s_ in scn["sessions"]:
+        if rng.random() < 0.5:                       # numpy scalars as EV fields
+            n = {}
+            for key in ("arrival", "departure", "est"):
+                if rng.random() < 0.7 and (key != "est" or s_.get("est") is not None):
+                    n[key] = rng.choice(["int64", "int64", "int32", "int16", "uint8", "uint32"])
+            if rng.random() < 0.7:
+                n["requested"] = rng.choice(["float32", "float32", "float64", "float16"])
+                s_["requested"] = rng.randint(1, 96) / 8.0          # exact in every one of them
+            s_["np"] = n
+        r = rng.random()
+        if r < 0.15:
+            s_["requested"] = "inf"
+            (s_.get("np") or {}).pop("requested", None)
+        elif r < 0.25 and not s_["batt"].get("two"):
+            s_["batt"] = dict(s_["batt"], cap="inf")
+    if float(scn["period"]) == int(scn["period"]) and rng.random() < 0.4:
+        scn["period"] = int(scn["period"])
+        scn["period_np"] = rng.choice(["int64", "int32", "float64"])
+    r = rng.random()
+    if r < 0.12 and scn["sessions"]:                    # NaN where the constructor accepts it
+        s_ = rng.choice(scn["sessions"])
+        s_["requested"] = "nan"
+        (s_.get("np") or {}).pop("requested", None)
+        scn["no_model"] = True
+    elif r < 0.36 and scn["sessions"]:                  # session ids that ARE keys of the context_dict
+        for s_ in rng.sample(scn["sessions"], min(len(scn["sessions"]), rng.choice([1, 1, 2]))):
+            s_["alias"] = rng.choice(["self", "self", "battery", "network", "sim", "queue"])
+        scn["no_model"] = True
+    elif r < 0.48 and scn["sessions"]:                  # float32 BATTERY fields: measured, not promised (ASSUMPTIONS)
+        s_ = rng.choice(scn["sessions"])
+        b = s_["batt"]
+        cap = rng.choice([10, 40, 60.5, 100])
+        s_["batt"] = dict(b, cap=cap, init=round(cap * rng.choice([0.25, 0.5, 0.75]) * 8) / 8.0, maxp=rng.choice([3.25, 6.625, 7, 50]))
+        s_.setdefault("np", {})["batt"] = {"cap": "float32", "init": "float32", "maxp": "float32"}
+        scn["float32_battery"] = True
+        scn["no_model"] = True
+    return scn
+
+
 def generate(rng, n, tier):
     out = []
     if tier == "thorough":
@@ -481,6 +569,12 @@ def generate(rng, n, tier):
             _rename_stations(scn, rng.choice(ID_SCHEMES[:3]))
         for k in _crash_points(scn):
             out.append({"scn": scn, "k": k})
+    for i in range(max(3, n // 5)):             # exotic ids, numpy scalars, inf / nan, ids that are registry ids
+        scn = _gen_exotic(rng)
+        for k in _crash_points(scn):
+            out.append({"scn": scn, "k": k})
+    for c in out:
+        c["probe"] = _probe(rng)
     return out
 
 
@@ -587,17 +681,101 @@ def _fresh_algo(scn):
     return algo
 
 
+def _np_of(n, key, v):
+    """the value as the numpy scalar type named in the session's `np` spec (numpy integer / float32 scalars as
+    EV fields: what a pandas / numpy pipeline hands to the EV constructor)"""
+    if v is None or not n or key not in n:
+        return v
+    return getattr(np, n[key])(v)
+
+
+def _make_ev_np(spec):
+    n = spec.get("np") or {}
+    nb = n.get("batt") or {}
+    b = spec["batt"]
+    cap, init, maxp = (_np_of(nb, k_, I.num(b[k_])) for k_ in ("cap", "init", "maxp"))
+    if b.get("two"):
+        batt = Linear2StageBattery(cap, init, maxp, noise_level=I.num(b.get("noise", 0)),
+                                   transition_soc=I.num(b.get("ts", 0.8)), charge_calculation=b.get("calc", "continuous"))
+    else:
+        batt = Battery(cap, init, maxp)
+    return EV(_np_of(n, "arrival", spec["arrival"]), _np_of(n, "departure", spec["departure"]),
+              _np_of(n, "requested", I.num(spec["requested"])), spec["station"], spec["session"], batt,
+              estimated_departure=_np_of(n, "est", spec.get("est")))
+
+
+def _needs_custom(scn):
+    return (any(s_.get("np") or s_.get("alias") for s_ in scn["sessions"]) or scn.get("period_np") is not None
+            or (scn.get("constraint") or {}).get("name") is not None)
+
+
+def _build_custom(case, hooks, store_hist):
+    """S.build_sim, plus: numpy scalar types for EV / battery fields and the period, a constraint NAME from the
+    case, and session ids that are registry ids ("alias": the EV's id is the decimal id() string of itself, of
+    its battery, of the network or of the simulator — what `_to_registry` uses as keys of `context_dict`)."""
+    hooks = hooks or S.Hooks()
+    net_cls = hooks.network_cls or S.SnapshotNetwork
+    net = net_cls()
+    for st in case["stations"]:
+        net.register_evse(I.make_evse(st["kind"], st["id"]), I.num(st["V"]), I.num(st.get("phase", 0)))
+    con = case.get("constraint")
+    if con:
+        net.add_constraint(Current([st["id"] for st in case["stations"]]), I.num(con["limit"]), name=con.get("name", "agg"))
+    evs = [_make_ev_np(s_) for s_ in case["sessions"]]
+    events = [PluginEvent(ev.arrival, ev) for ev in evs]
+    events += [RecomputeEvent(int(r)) for r in case.get("recomputes", [])]
+    queue = EventQueue(events)
+    algo = S.make_scheduler(case, hooks)
+    period = I.num(case["period"])
+    if case.get("period_np"):
+        period = getattr(np, case["period_np"])(period)
+    sim = Simulator(net, algo, queue, S.START, period=period, verbose=False, store_schedule_history=store_hist)
+    amap = {}
+    for s_, ev in zip(case["sessions"], evs):
+        al = s_.get("alias")
+        if al:
+            target = {"self": ev, "battery": ev._battery, "network": net, "sim": sim, "queue": queue}[al]
+            ev._session_id = str(id(target))       # before anything is keyed by it: same as constructing with this id
+            amap[ev._session_id] = s_["session"]
+    return sim, {"network": net, "scheduler": algo, "evs": evs, "hooks": hooks, "amap": amap}
+
+
+def _unalias(x, amap):
+    """observations name an aliased session by its case id again (the id() strings differ from build to build)"""
+    if not amap:
+        return x
+    if isinstance(x, str):
+        return amap.get(x, x)
+    if isinstance(x, list):
+        return [_unalias(y, amap) for y in x]
+    if isinstance(x, dict):
+        return {k_: _unalias(v_, amap) for k_, v_ in x.items()}
+    return x
+
+
+def _observe(sim, ctx, err):
+    obs = S.observe(sim, ctx, err)
+    obs["constraint_names"] = list(sim.network.constraint_index)
+    return _unalias(obs, ctx.get("amap"))
+
+
+def _base_build(scn, hooks, store_hist):
+    if _needs_custom(scn):
+        return _build_custom(scn, hooks, store_hist)
+    return S.build_sim(scn, hooks, store_schedule_history=store_hist)
+
+
 def _build(scn, hooks, store_hist=False):
     """S.build_sim; for a real algorithm the wrapped inner algorithm is replaced by one built here (so that
     every sort order and the estimator / uninterrupted options exist)"""
     if _is_real(scn):
         shell = dict(scn, sched={"type": "uncontrolled" if scn["sched"]["type"] == "uncontrolled" else "fcfs"})
-        sim, ctx = S.build_sim(shell, hooks, store_schedule_history=store_hist)
+        sim, ctx = _base_build(shell, hooks, store_hist)
         algo = ctx["scheduler"]
         algo.inner = _real_inner(scn)
         algo.inner.register_interface(algo.interface)
         return sim, ctx
-    return S.build_sim(scn, hooks, store_schedule_history=store_hist)
+    return _base_build(scn, hooks, store_hist)
 
 
 def _rd_final(obs, algo):
@@ -664,11 +842,11 @@ def _run_resume(scn, hooks):
         sim, ctx = _build(scn, hooks)
         err = S.run_sim(sim)
         if err is None:
-            obs = S.observe(sim, ctx, None)
+            obs = _observe(sim, ctx, None)
         else:
-            first = S.observe(sim, ctx, err)
+            first = _observe(sim, ctx, err)
             err2 = S.run_sim(sim)
-            obs = S.observe(sim, ctx, err2)
+            obs = _observe(sim, ctx, err2)
             obs["first"] = first
         obs["noise_draws"] = ns["k"]
         _by_station(sim, obs)
@@ -686,7 +864,7 @@ def _run_a(scn):
         with S.noise_stream(scn.get("noise", [])) as ns:
             sim, ctx = _build(scn, S.Hooks(), True)
             err = S.run_sim(sim)
-            obs = S.observe(sim, ctx, err)
+            obs = _observe(sim, ctx, err)
             obs["noise_draws"] = ns["k"]
             obs["sched_hist"] = _sched_hist(sim)
             _by_station(sim, obs)
@@ -746,41 +924,87 @@ def _identity(sim):
     return bad, n_shared
 
 
-def _bijection(j1, j2):
-    """Structural comparison of two registries: ids are matched by walking from the roots."""
+# where a registry holds REFERENCES (ids of other entries).  The loader is schema-directed (`_from_dict` knows which
+# attribute is an id), so a string LEAF that happens to equal an id (a session id "140231…") is NOT a reference.
+REF_ATTR = {("Simulator", "network"), ("Simulator", "event_queue"), ("EV", "_battery"), ("BaseEVSE", "_ev"), ("EVSE", "_ev"),
+            ("DeadbandEVSE", "_ev"), ("FiniteRatesEVSE", "_ev"), ("PluginEvent", "ev"), ("UnplugEvent", "ev"), ("EVEvent", "ev")}
+REF_DICT = {("Simulator", "ev_history"), ("ChargingNetwork", "_EVSEs"), ("LogNetwork", "_EVSEs"), ("SnapshotNetwork", "_EVSEs"),
+            ("JsonLogNetwork", "_EVSEs"), ("_Stoch", "_EVSEs"), ("_StochEarly", "_EVSEs"), ("StochasticNetwork", "_EVSEs")}
+REF_LIST = {("Simulator", "event_history")}
+REF_PAIRS = {("EventQueue", "_queue")}          # [[timestamp, id], …]
+
+
+def _leaf_eq(a, b):
+    """leaves of two parsed documents: same TYPE (an int is not a float, a bool is not an int) and same value"""
+    if type(a) is not type(b):
+        return False
+    if isinstance(a, float) and a != a:
+        return b != b
+    if isinstance(a, list):
+        return len(a) == len(b) and all(_leaf_eq(x, y) for x, y in zip(a, b))
+    if isinstance(a, dict):
+        return list(a.keys()) == list(b.keys()) and all(_leaf_eq(a[k], b[k]) for k in a)
+    return a == b
+
+
+def _bijection(j1, j2, skip=()):
+    """Structural comparison of two registries: ids are matched by walking from the roots along the attributes that
+    hold references (schema above); every other attribute must be equal as a typed JSON value."""
     c1, c2 = j1["context_dict"], j2["context_dict"]
     fwd, bwd, diffs = {}, {}, []
     todo = [(j1["id"], j2["id"])]
 
-    def match(a, b, path):
-        if isinstance(a, str) and a in c1:
-            if not (isinstance(b, str) and b in c2):
-                diffs.append(f"{path}: reference vs {b!r}")
-                return
-            if fwd.get(a, b) != b or bwd.get(b, a) != a:
-                diffs.append(f"{path}: sharing differs (id map not a bijection)")
-                return
-            if a not in fwd:
-                fwd[a] = b
-                bwd[b] = a
-                todo.append((a, b))
+    def ref(a, b, path):
+        if a is None or b is None:
+            if a is not b:
+                diffs.append(f"{path}: {a!r} vs {b!r}")
             return
-        if isinstance(a, dict) and isinstance(b, dict):
-            if list(a.keys()) != list(b.keys()):
-                diffs.append(f"{path}: keys {list(a.keys())} vs {list(b.keys())}")
-                return
-            for k in a:
-                match(a[k], b[k], f"{path}.{k}")
+        if not (isinstance(a, str) and a in c1 and isinstance(b, str) and b in c2):
+            diffs.append(f"{path}: reference {a!r} vs {b!r}")
             return
-        if isinstance(a, list) and isinstance(b, list):
-            if len(a) != len(b):
-                diffs.append(f"{path}: length {len(a)} vs {len(b)}")
-                return
-            for i, (x, y) in enumerate(zip(a, b)):
-                match(x, y, f"{path}[{i}]")
+        if fwd.get(a, b) != b or bwd.get(b, a) != a:
+            diffs.append(f"{path}: sharing differs (id map not a bijection)")
             return
-        if a != b or type(a) is not type(b) and not (isinstance(a, (int, float)) and isinstance(b, (int, float))):
-            diffs.append(f"{path}: {a!r} vs {b!r}")
+        if a not in fwd:
+            fwd[a] = b
+            bwd[b] = a
+            todo.append((a, b))
+
+    def attrs(cls, a, b):
+        if list(a.keys()) != list(b.keys()):
+            diffs.append(f"{cls}: keys {list(a.keys())} vs {list(b.keys())}")
+            return
+        for k in a:
+            x, y, path = a[k], b[k], f"{cls}.{k}"
+            if (cls, k) in skip:
+                continue
+            if (cls, k) in REF_ATTR:
+                ref(x, y, path)
+            elif (cls, k) in REF_DICT and isinstance(x, dict) and isinstance(y, dict):
+                if list(x.keys()) != list(y.keys()):
+                    diffs.append(f"{path}: keys {list(x.keys())[:6]} vs {list(y.keys())[:6]}")
+                    continue
+                for kk in x:
+                    ref(x[kk], y[kk], f"{path}[{kk!r}]")
+            elif (cls, k) in REF_LIST and isinstance(x, list) and isinstance(y, list):
+                if len(x) != len(y):
+                    diffs.append(f"{path}: length {len(x)} vs {len(y)}")
+                    continue
+                for n_, (p_, q_) in enumerate(zip(x, y)):
+                    ref(p_, q_, f"{path}[{n_}]")
+            elif (cls, k) in REF_PAIRS and isinstance(x, list) and isinstance(y, list):
+                if len(x) != len(y):
+                    diffs.append(f"{path}: length {len(x)} vs {len(y)}")
+                    continue
+                for n_, (p_, q_) in enumerate(zip(x, y)):
+                    if not (isinstance(p_, list) and isinstance(q_, list) and len(p_) == 2 and len(q_) == 2):
+                        diffs.append(f"{path}[{n_}]: {p_!r} vs {q_!r}")
+                    else:
+                        if not _leaf_eq(p_[0], q_[0]):
+                            diffs.append(f"{path}[{n_}] timestamp: {p_[0]!r} vs {q_[0]!r}")
+                        ref(p_[1], q_[1], f"{path}[{n_}]")
+            elif not _leaf_eq(x, y):
+                diffs.append(f"{path}: {str(x)[:80]!r} vs {str(y)[:80]!r} ({type(x).__name__} / {type(y).__name__})")
 
     fwd[j1["id"]] = j2["id"]
     bwd[j2["id"]] = j1["id"]
@@ -790,7 +1014,7 @@ def _bijection(j1, j2):
         if o1["class"] != o2["class"]:
             diffs.append(f"{a}: class {o1['class']} vs {o2['class']}")
             continue
-        match(o1["attributes"], o2["attributes"], o1["class"].split(".")[-1])
+        attrs(o1["class"].split(".")[-1], o1["attributes"], o2["attributes"])
     if len(c1) != len(c2):
         diffs.append(f"{len(c1)} objects before, {len(c2)} after the round trip")
     order1 = list(c1.keys())
@@ -800,41 +1024,32 @@ def _bijection(j1, j2):
     return diffs
 
 
-def _wire_val(v, ids):
-    if isinstance(v, str) and v in ids:
-        return {"r": int(v)}
-    items = []
-    has_ref = [False]
-
-    def walk(x):
-        if isinstance(x, str) and x in ids:
-            items.append({"r": int(x)})
-            has_ref[0] = True
-        elif isinstance(x, list):
-            items.append({"s": "["})
-            for y in x:
-                walk(y)
-            items.append({"s": "]"})
-        elif isinstance(x, dict):
-            items.append({"s": "{"})
-            for kk, y in x.items():
-                items.append({"s": json.dumps(kk)})
-                walk(y)
-            items.append({"s": "}"})
-        else:
-            items.append({"s": json.dumps(x)})
-
-    if isinstance(v, (list, dict)):
-        walk(v)
-        if has_ref[0]:
-            return {"l": items}
+def _wire_val(cls, k, v, ids):
+    """one attribute value in the driver's wire form; references are marked BY POSITION (schema above), never by
+    what a string looks like"""
+    key = (cls, k)
+    if key in REF_ATTR:
+        return {"s": "null"} if v is None else {"r": int(v)}
+    if key in REF_DICT and isinstance(v, dict) and v and all(isinstance(x, str) and x in ids for x in v.values()):
+        items = [{"s": "{"}]
+        for kk, x in v.items():
+            items += [{"s": json.dumps(kk)}, {"r": int(x)}]
+        return {"l": items + [{"s": "}"}]}
+    if key in REF_LIST and isinstance(v, list) and v and all(isinstance(x, str) and x in ids for x in v):
+        return {"l": [{"s": "["}] + [{"r": int(x)} for x in v] + [{"s": "]"}]}
+    if key in REF_PAIRS and isinstance(v, list) and v and all(isinstance(x, list) and len(x) == 2 and x[1] in ids for x in v):
+        items = [{"s": "["}]
+        for ts, x in v:
+            items += [{"s": "["}, {"s": json.dumps(ts)}, {"r": int(x)}, {"s": "]"}]
+        return {"l": items + [{"s": "]"}]}
     return {"s": json.dumps(v)}
 
 
 def _wire_store(j):
     ctx = j["context_dict"]
     ids = set(ctx.keys())
-    store = [[int(i), o["class"], [[k, _wire_val(v, ids)] for k, v in o["attributes"].items()]] for i, o in ctx.items()]
+    store = [[int(i), o["class"], [[k, _wire_val(o["class"].split(".")[-1], k, v, ids)] for k, v in o["attributes"].items()]]
+             for i, o in ctx.items()]
     store.sort(key=lambda e: (e[1], -e[0]))          # scrambled: by class name, then descending id
     return {"root": int(j["id"]), "store": store, "order": [int(i) for i in ctx.keys()]}
 
@@ -879,7 +1094,11 @@ def _canon_impl(j, scn):
         return {"s": "f:" + str(C.f2b(float(x)))}
 
     def i_(x):
-        return {"s": "null"} if x is None else {"s": "i:" + str(int(x))}
+        if x is None:
+            return {"s": "null"}
+        if isinstance(x, bool) or not isinstance(x, int):
+            return {"s": "f:" + str(C.f2b(float(x)))}       # an integer field that is no `int` in the document: the
+        return {"s": "i:" + str(int(x))}                     # model's decoder refuses it (reported as a disagreement)
 
     def st_(x):
         return {"s": "s:" + str(x)}
@@ -935,28 +1154,76 @@ def _canon_impl(j, scn):
     return out
 
 
-def _evs_of(sim, scn):
+def _evs_of(sim, scn, amap=None):
+    amap = amap or {}
     by = {}
     for _, ev in _all_evs(sim):
-        by.setdefault(ev.session_id, ev)
+        by.setdefault(amap.get(ev.session_id, ev.session_id), ev)
     return [by[s["session"]] for s in scn["sessions"] if s["session"] in by], \
         [s["session"] for s in scn["sessions"] if s["session"] not in by]
 
 
-def _run_json(scn, k, store_hist, net_cls, want_store, reattach="fresh"):
+def _intlike(x):
+    return isinstance(x, (int, np.integer)) and not isinstance(x, (bool, np.bool_))
+
+
+def _type_diffs(sim):
+    """fields that are integers by construction must still be integers in a loaded simulator (an `int` that comes
+    back as a `float` compares equal and prints differently: 5 vs 5.0)"""
+    bad = []
+    for nm in ("_iteration",):
+        if not _intlike(getattr(sim, nm)):
+            bad.append(f"Simulator.{nm} is {type(getattr(sim, nm)).__name__} {getattr(sim, nm)!r}")
+    for nm in ("_last_schedule_update", "max_recompute"):
+        v = getattr(sim, nm)
+        if v is not None and not _intlike(v):
+            bad.append(f"Simulator.{nm} is {type(v).__name__} {v!r}")
+    if not isinstance(sim._resolve, (bool, np.bool_)):
+        bad.append(f"Simulator._resolve is {type(sim._resolve).__name__}")
+    seen = set()
+    for where, ev in _all_evs(sim):
+        if id(ev) in seen:
+            continue
+        seen.add(id(ev))
+        for nm in ("_arrival", "_departure", "_estimated_departure"):
+            v = getattr(ev, nm)
+            if not _intlike(v):
+                bad.append(f"EV {ev.session_id!r}.{nm} is {type(v).__name__} {v!r}")
+        for nm in ("_session_id", "_station_id"):
+            if not isinstance(getattr(ev, nm), str):
+                bad.append(f"EV.{nm} is {type(getattr(ev, nm)).__name__}")
+    for ts, e in sim.event_queue.queue:
+        if not _intlike(ts) or not _intlike(e.timestamp):
+            bad.append(f"pending {e.event_type}: timestamp {type(ts).__name__} {ts!r} / {type(e.timestamp).__name__}")
+    for e in sim.event_history:
+        if not _intlike(e.timestamp):
+            bad.append(f"past {e.event_type}: timestamp {type(e.timestamp).__name__} {e.timestamp!r}")
+    for st, evse in sim.network._EVSEs.items():
+        if not isinstance(st, str) or evse.station_id != st:
+            bad.append(f"EVSE registered as {st!r} has station_id {evse.station_id!r}")
+    return bad[:6]
+
+
+_JS_TEXT = {}          # case hash -> the `to_json()` document of run c (text layer tie; kept out of the observations)
+
+
+def _run_json(scn, k, store_hist, net_cls, want_store, reattach="fresh", twice=False, keep_text=None):
     """run c / d.  reattach: "fresh" = a new algorithm object, "original" = the algorithm object of the
-    crashed simulator (keeps whatever internal state it has)"""
+    crashed simulator (keeps whatever internal state it has).  In every run the loaded simulator is written and
+    loaded a SECOND time: sharing, types and the document must survive that too; with `twice` the run is resumed
+    from the twice-loaded simulator."""
     del _OCC[:]
     with S.noise_stream(scn.get("noise", [])) as ns:
         sim, ctx = _build(scn, S.Hooks(fail_at={k}, network_cls=net_cls), store_hist)
+        amap = ctx.get("amap") or {}
         err = S.run_sim(sim)
-        out = {"fired": err == "SchedulerFailed" and sim.iteration == k, "reattach": reattach}
+        out = {"fired": err == "SchedulerFailed" and sim.iteration == k, "reattach": reattach, "twice": twice}
         if not out["fired"]:
-            obs = S.observe(sim, ctx, err)
+            obs = _observe(sim, ctx, err)
             obs["noise_draws"] = ns["k"]
             obs["sched_hist"] = _sched_hist(sim)
             _by_station(sim, obs)
-            obs["occ"] = [list(r) for r in _OCC] if net_cls is LogNetwork else []
+            obs["occ"] = _unalias([list(r) for r in _OCC], amap) if net_cls is LogNetwork else []
             out["obs"] = obs
             return out
         w = _quiet()
@@ -969,30 +1236,51 @@ def _run_json(scn, k, store_hist, net_cls, want_store, reattach="fresh"):
                 out["rd_at_crash"] = _rd_state(algo2)
             sim2.update_scheduler(algo2)
             js2 = sim2.to_json()
+            sim3 = Simulator.from_json(js2)
+            js3 = sim3.to_json()
         finally:
             w.__exit__(None, None, None)
         j1 = json.loads(js)
+        if keep_text is not None and len(js) < 300000:
+            if len(_JS_TEXT) > 600:
+                _JS_TEXT.clear()
+            _JS_TEXT[keep_text] = js
         out["identity"], out["n_shared"] = _identity(sim2)
-        out["rejson"] = _bijection(j1, json.loads(js2))
+        id3, n3 = _identity(sim3)
+        out["identity"] += ["after a second save/load: " + x for x in id3]
+        if n3 != out["n_shared"]:
+            out["identity"].append(f"{out['n_shared']} shared station/history/unplug triples after the first load, {n3} after the second")
+        out["rejson"] = _bijection(j1, json.loads(js2)) or ["second save/load: " + x for x in _bijection(
+            j1, json.loads(js3), skip={("Simulator", "scheduler")})]     # only the class NAME of the scheduler travels; sim3 has none re-attached
+        out["types"] = _type_diffs(sim2) or ["after a second save/load: " + x for x in _type_diffs(sim3)]
         out["n_objects"] = len(j1["context_dict"])
         out["pending_kinds"] = sorted({e.event_type for _, e in sim2.event_queue.queue})
-        out["same_object"] = sim2 is sim
+        out["same_object"] = sim2 is sim or sim3 is sim2
         if want_store:
             out["store"] = _wire_store(j1)
             out["canon"] = _canon_impl(j1, scn)
             out["noise_at_crash"] = ns["k"]
-        evs, missing = _evs_of(sim2, scn)
+        if twice:
+            w = _quiet()
+            try:
+                sim3.update_scheduler(algo2)
+            finally:
+                w.__exit__(None, None, None)
+            sim2 = sim3
+        evs, missing = _evs_of(sim2, scn, amap)
         out["missing_evs"] = missing
         err2 = S.run_sim(sim2)
-        ctx2 = {"network": sim2.network, "scheduler": algo2, "evs": evs, "hooks": None}
-        obs = S.observe(sim2, ctx2, err2)
+        ctx2 = {"network": sim2.network, "scheduler": algo2, "evs": evs, "hooks": None, "amap": amap}
+        obs = _observe(sim2, ctx2, err2)
         obs["noise_draws"] = ns["k"]
         obs["sched_hist"] = _sched_hist(sim2)
         _by_station(sim2, obs)
-        obs["occ"] = [list(r) for r in _OCC] if net_cls is LogNetwork else []
+        obs["occ"] = _unalias([list(r) for r in _OCC], amap) if net_cls is LogNetwork else []
         if reattach != "fresh":
             _rd_final(obs, algo2)
         out["obs"] = obs
+        # every EV is still ONE object when the resumed run has ended (ev_history / event_history / whoever is left)
+        out["identity"] += ["at the end of the resumed run: " + x for x in _identity(sim2)[0]]
     return out
 
 
@@ -1018,9 +1306,9 @@ def _run_json_twice(scn, k, k2):
                 w.__exit__(None, None, None)
             hops += 1
             err = S.run_sim(sim)
-        evs, missing = _evs_of(sim, scn)
+        evs, missing = _evs_of(sim, scn, ctx.get("amap"))
         out["missing_evs"] = missing
-        obs = S.observe(sim, {"network": sim.network, "scheduler": algo, "evs": evs, "hooks": None}, err)
+        obs = _observe(sim, {"network": sim.network, "scheduler": algo, "evs": evs, "hooks": None, "amap": ctx.get("amap")}, err)
         obs["noise_draws"] = ns["k"]
         obs["sched_hist"] = None
         _by_station(sim, obs)
@@ -1036,10 +1324,11 @@ def run_impl(case):
     if scn.get("stochastic"):
         return {"a": a, "b": _run_stoch(scn, k), "c": None, "d": None}
     b = _run_resume(scn, S.Hooks(fail_at={k}))
-    c = _run_json(scn, k, False, ChargingNetwork, not _is_real(scn))
+    c = _run_json(scn, k, False, ChargingNetwork, not _is_real(scn) and not scn.get("no_model"), keep_text=C.case_hash(case))
     # an algorithm with hidden state: the history-on round trip gets the ORIGINAL algorithm object back too
     # (run c keeps the fresh one: it measures whether the hidden state matters at this crash point)
-    d = _run_json(scn, k, True, LogNetwork, False, reattach="original" if _hidden_state(scn) else "fresh")
+    # … and is resumed from the simulator that went through save/load TWICE
+    d = _run_json(scn, k, True, LogNetwork, False, reattach="original" if _hidden_state(scn) else "fresh", twice=True)
     out = {"a": a, "b": b, "c": c, "d": d}
     if _is_real(scn):
         # the failure strikes AFTER the algorithm ran; and the original algorithm object re-attached after the load
@@ -1090,6 +1379,38 @@ def _min_rate_truncated(scn, infra):
     return bool(scn["sched"].get("uninterrupted")) and any(float(x) != int(float(x)) for x in infra["minp"])
 
 
+def _json_probe(case):
+    """the TEXT layer (AcnModel/JsonText.lean) against CPython's `json`: the whole document `to_json()` wrote at
+    the crash point of run c, every id of the scenario, and the case's probe strings / ints"""
+    scn = case["scn"]
+    js = _JS_TEXT.get(C.case_hash(case))
+    pr = case.get("probe") or {}
+    strs = [st["id"] for st in scn["stations"]] + [s_["session"] for s_ in scn["sessions"]] + list(pr.get("strs", []))
+    con = scn.get("constraint") or {}
+    if con.get("name") is not None:
+        strs.append(con["name"])
+    return {"docs": [js] if js else [], "strs": strs, "ints": [int(x) for x in pr.get("ints", [])] + [int(case["k"])]}
+
+
+def _compare_json(case, mj):
+    req = _json_probe(case)
+    diffs = []
+    if mj is None:
+        return ["json text: no model answer"]
+    for t, d in zip(req["docs"], mj["docs"]):
+        if d != t:
+            at = next((i_ for i_, (x, y) in enumerate(zip(t, d or "")) if x != y), min(len(t), len(d or "")))
+            diffs.append("json text: the modelled json.loads + json.dumps do not reproduce the document to_json() wrote"
+                         + (" (model: does not parse)" if d is None else f"; first difference at {at}: impl …{t[max(0, at - 20):at + 20]!r} model …{d[max(0, at - 20):at + 20]!r}"))
+    for x, t, b in zip(req["strs"], mj["strs"], mj["strs_back"]):
+        if t != json.dumps(x) or not b:
+            diffs.append(f"json text: string {x[:40]!r}: json.dumps {json.dumps(x)[:60]} model {t[:60]} parsed back: {b}")
+    for x, t, b in zip(req["ints"], mj["ints"], mj["ints_back"]):
+        if t != json.dumps(x) or not b:
+            diffs.append(f"json text: int {x}: json.dumps {json.dumps(x)} model {t} parsed back: {b}")
+    return diffs[:4]
+
+
 def model_request(case, obs=None):
     scn, k = case["scn"], int(case["k"])
     if scn.get("stochastic"):
@@ -1101,8 +1422,11 @@ def model_request(case, obs=None):
             return None
         # (a fractional minimum pilot used to be truncated by the code — finding F20, repaired in /repo fcfc030;
         #  the sub-class is compared with the model like every other one now)
-        return {"sim": None, "reg": None, "sorted": _sorted_request(scn, obs["a"]["infra"])}
-    req = {"sim": S.model_request(scn, fail_at={k}, resume=True), "reg": None}
+        return {"sim": None, "reg": None, "sorted": _sorted_request(scn, obs["a"]["infra"]), "json": _json_probe(case)}
+    if scn.get("no_model"):
+        # ids that are registry ids (only known at run time), NaN fields: implementation oracle + the text layer
+        return {"sim": None, "reg": None, "json": _json_probe(case)}
+    req = {"sim": S.model_request(scn, fail_at={k}, resume=True), "reg": None, "json": _json_probe(case)}
     if obs and isinstance(obs.get("c"), dict) and obs["c"].get("store"):
         st = obs["c"]["store"]
         req["reg"] = {"root": st["root"], "store": st["store"]}
@@ -1160,8 +1484,12 @@ def _compare_sorted(case, obs, sr):
 
 def compare(case, obs, model):
     diffs = []
+    jd = _compare_json(case, model.get("json"))
     if model.get("sorted") is not None:
-        return _compare_sorted(case, obs, model["sorted"])
+        return jd + _compare_sorted(case, obs, model["sorted"])
+    if case["scn"].get("no_model"):
+        return jd
+    diffs.extend(jd)
     if model.get("sim") is not None:
         diffs.extend(S.compare(case["scn"], obs["b"], model["sim"]))
     reg = model.get("reg")
@@ -1377,6 +1705,8 @@ def _same(a, o, tag, k, check_invoked):
             d.append(f"{key}: uninterrupted {a[key]!r} {tag} {o[key]!r}")
     if a["event_history"] != o["event_history"]:
         d.append(f"event_history: uninterrupted {a['event_history']} {tag} {o['event_history']}")
+    if "constraint_names" in a and "constraint_names" in o and a["constraint_names"] != o["constraint_names"]:
+        d.append(f"constraint names: {a['constraint_names']} vs {o['constraint_names']}")
     if "station_ids" in a and "station_ids" in o:
         if a["station_ids"] != o["station_ids"]:
             d.append(f"network.station_ids: {a['station_ids']} vs {o['station_ids']}")
@@ -1426,6 +1756,14 @@ def _same(a, o, tag, k, check_invoked):
     return d
 
 
+def _is_json(x):
+    try:
+        json.loads(x)
+        return True
+    except ValueError:
+        return False
+
+
 def _hidden_state(scn):
     return _is_real(scn) and bool(scn["sched"].get("estimator"))
 
@@ -1457,6 +1795,9 @@ def oracle(case, obs):
         dd = _same(a, r["obs"], f"after {tag} round trip", k, "tail" if r["fired"] else None)
         if stateful and r["fired"] and r.get("reattach") != "original":
             dd = []      # a FRESH estimator has lost its bounds: outside the property (see ASSUMPTIONS); measured in features
+        if scn.get("float32_battery") and r["fired"]:
+            dd = []      # float32 BATTERY fields come back as doubles: the resumed arithmetic is no longer rounded to
+            #              float32 (ASSUMPTIONS); measured in features.  Sharing, types and the document are still checked
         if r["fired"] and r.get("missing_evs"):
             dd.append(f"EVs not reachable from the loaded simulator: {r['missing_evs']}")
         if dd:
@@ -1468,6 +1809,8 @@ def oracle(case, obs):
                 fails.append({"kind": "sharing_lost", "detail": f"{tag}, crash at {k}: " + "; ".join(r["identity"][:3])})
             if r["rejson"]:
                 fails.append({"kind": "rejson_differs", "detail": f"{tag}, crash at {k}: to_json of the loaded simulator: " + "; ".join(r["rejson"][:3])})
+            if r.get("types"):
+                fails.append({"kind": "type_changed", "detail": f"{tag}, crash at {k}: " + "; ".join(r["types"][:3])})
             if r["same_object"]:
                 fails.append({"kind": "sharing_lost", "detail": "from_json returned the original object"})
     if _is_real(scn):
@@ -1485,6 +1828,8 @@ def oracle(case, obs):
                               "detail": f"crash at {k}, JSON round trip, the ORIGINAL algorithm object re-attached: " + "; ".join(d3[:4])})
             if c2["fired"] and (c2["identity"] or c2["rejson"]):
                 fails.append({"kind": "sharing_lost", "detail": "; ".join((c2["identity"] + c2["rejson"])[:3])})
+            if c2["fired"] and c2.get("types"):
+                fails.append({"kind": "type_changed", "detail": "; ".join(c2["types"][:3])})
         c3 = obs.get("c3")
         if c3 is not None:
             if not (c3["fired"] and c3["fired2"]):
@@ -1500,7 +1845,7 @@ def oracle(case, obs):
                 if c3["identity"]:
                     fails.append({"kind": "sharing_lost", "detail": f"after two round trips: " + "; ".join(c3["identity"][:3])})
     if d is not None and d["fired"] and (not stateful or d.get("reattach") == "original") \
-            and d["obs"].get("sched_hist") != a.get("sched_hist"):
+            and not scn.get("float32_battery") and d["obs"].get("sched_hist") != a.get("sched_hist"):
         fails.append({"kind": "json_history_resume_differs",
                       "detail": f"crash at {k}: schedule_history {str(d['obs'].get('sched_hist'))[:300]} vs {str(a.get('sched_hist'))[:300]}"})
     return fails
@@ -1561,6 +1906,34 @@ def features(case, obs):
             f.append("estimator_settled_bound_at_crash=" + str(min(2, sum(1 for r in below if r[3] is not None and r[3] - r[4] <= down))))
     if scn.get("rampdown_stream"):
         f.append("rampdown_stream")
+    if scn.get("exotic"):
+        f.append("exotic_ids")
+        ids = [st["id"] for st in scn["stations"]] + [s_["session"] for s_ in scn["sessions"]] + [(scn.get("constraint") or {}).get("name") or "agg"]
+        for nm, pred in (("needs_escape", lambda x: json.dumps(x) != '"' + x + '"'), ("non_ascii", lambda x: any(ord(ch) > 126 for ch in x)),
+                         ("astral", lambda x: any(ord(ch) > 0xffff for ch in x)), ("control", lambda x: any(ord(ch) < 32 for ch in x)),
+                         ("empty", lambda x: x == ""), ("long", lambda x: len(x) > 1000),
+                         ("looks_like_json", lambda x: _is_json(x)), ("model_tag", lambda x: x[:2] in ("s:", "i:", "f:", "m:", "b:") or x in ("-", "null"))):
+            if any(pred(x) for x in ids):
+                f.append("ids:" + nm)
+        if (scn.get("constraint") or {}).get("name") is not None:
+            f.append("constraint_name_exotic")
+        nps = sorted({f"{k_}:{v_}" for s_ in scn["sessions"] for k_, v_ in (s_.get("np") or {}).items() if k_ != "batt"})
+        for x in nps:
+            f.append("np_field=" + x)
+        if scn.get("period_np"):
+            f.append("np_period=" + scn["period_np"])
+        vals = [str(s_["requested"]) for s_ in scn["sessions"]] + [str(s_["batt"]["cap"]) for s_ in scn["sessions"]] + [str((scn.get("constraint") or {}).get("limit"))]
+        for x in ("inf", "nan"):
+            if x in vals:
+                f.append("nonfinite=" + x)
+        for al in sorted({s_["alias"] for s_ in scn["sessions"] if s_.get("alias")}):
+            f.append("session_id_is_registry_id_of=" + al)
+        if scn.get("float32_battery") and c and c.get("fired"):
+            f.append("float32_battery_resume=" + ("differs" if _same(a, c["obs"], "", k, None) else "same"))
+    if c and c.get("fired") and c.get("twice") is not None:
+        f.append("second_save_load_checked")
+    if obs.get("d") and obs["d"].get("fired") and obs["d"].get("twice"):
+        f.append("resumed_after_two_round_trips")
     if obs.get("c3") is not None:
         f.append("two_interruptions:gap=" + str(min(3, obs["c3"]["k2"] - k)))
     if _is_real(scn) and not scn.get("stochastic"):
